@@ -264,21 +264,21 @@ def run(v, tier, seed):
         n_small, small_files = int(2000 * scale), 1
         tguards = [(DEV + ["F2"], "TraversalExact"), (DEV + ["F24"], "RouteOnce"), ([], "RouteOnce")]
         rguards = [(DEV + ["F23"], "RouteExact", 1, 3, "KM_full")]
-        rmc = [("ops3", 1, 3, "KM_full", ["none", "1", "nonstr"], 3), ("fifo", 2, 1, "KM_fifo", ["none", "1"], 1)]
-        gens = [("a", 1, 2, "KM_full", "DM_one", "SM_small", ["none", "1"])]
+        rmc = [("ops3", 1, 3, "KM_full", ["none", "1"], 3), ("fifo", 2, 1, "KM_fifo", ["none", "1", "nonstr"], 1)]
+        gens = [("a", 1, 2, "KM_noF25", "DM_one", "SM_small", ["none", "1"])]
     else:
         uni = "full"; uni_nsh = 64; uni_shards = list(range(int(64 * min(1.0, scale)) or 1))
-        mc_jobs = [("core", k, 8) for k in range(8)] + [("tri", k, 64) for k in range(int(64 * min(1.0, scale * 0.5)) or 1)]
-        n_wide = int(400000 * scale); wide_files = 16
-        n_rand, n_steps, rand_files = int(20000 * scale), 60, 8
+        mc_jobs = [("core", k, 8) for k in range(8)] + [("tri", (seed + 4 * k) % 64, 64) for k in range(int(16 * min(4.0, scale)) or 1)]      # a quarter of the three-pattern universe, moving with the seed
+        n_wide = int(200000 * scale); wide_files = 16
+        n_rand, n_steps, rand_files = int(10000 * scale), 60, 8
         n_small, small_files = (0 if scale >= 1 else int(42750 * scale)), 8          # 0 = the whole small space
         tguards = [(DEV + ["F2"], "TraversalExact"), (DEV + ["F24"], "RouteOnce"), ([], "RouteOnce"), (DEV + ["F24"], "StopOnce"), (DEV + ["NoAlreadyDid"], "TraversalExact"),
                    (DEV + ["FastPathFirstEntry"], "TraversalExact")]
         rguards = [(DEV + ["F23"], "RouteExact", 1, 3, "KM_full"), (DEV + ["F24"], "RouteExact", 1, 3, "KM_full"), (DEV + ["F2"], "RouteExact", 1, 3, "KM_full"), ([], "RouteExact", 1, 3, "KM_full"),
                    (DEV + ["ReflectInverted"], "RouteExact", 1, 3, "KM_full"), (DEV + ["KeepForged"], "SenderTrue", 1, 3, "KM_full"), (DEV + ["HeadQueue"], "PairFIFO", 2, 1, "KM_fifo"),
-                   (DEV + ["FirstKeyFilter"], "RouteExact", 1, 3, "KM_full"), (DEV + ["KeepFirstFilter"], "RouteExact", 1, 3, "KM_full")]
+                   (DEV + ["FirstKeyFilter"], "RouteExact", 1, 3, "KM_full")]
         rmc = [("ops4", 1, 4, "KM_full", ["none", "1", "nonstr"], 4) if scale >= 0.5 else ("ops3", 1, 3, "KM_full", ["none", "1", "nonstr"], 3), ("fifo", 3, 2, "KM_fifo", ["none", "1"], 2)]
-        gens = [("a", 1, 2, "KM_full", "DM_one", "SM_small", ["none", "1"]), ("b", 2, 1, "KM_fifo", "DM_one", "SM_small", ["none"])]
+        gens = [("a", 1, 2, "KM_noF25", "DM_one", "SM_small", ["none", "1"]), ("b", 2, 1, "KM_fifo", "DM_one", "SM_small", ["none"])]
 
     # ------------------------------------------------------------------ the real code, recorded (seconds)
     uni_prefix = W("trav_" + uni)
